@@ -1,0 +1,11 @@
+//go:build verif
+
+package rtpreceiver
+
+import "github.com/pion/rtcp"
+
+// VerifReport generates a receiver report immediately, exactly as the report
+// ticker does every Period. (verification instrumentation, build tag verif)
+func (rr *Receiver) VerifReport() rtcp.Packet {
+	return rr.report()
+}
